@@ -1,4 +1,13 @@
-"""C05 — MusicXML scores parse to the notes, key, meter and tempo they declare (DESIGN 6.5)."""
+"""C05 — MusicXML scores parse to the notes, key, meter and tempo they declare (DESIGN 6.5).
+
+Files: every rendered score is written to one of a small POOL of paths (three .xml, three .mxl) that are REWRITTEN in
+place for the whole run, so a conversion that remembers anything per path is judged on stale content by the oracle and
+the correspondence of every stream.  Stream `file-history`: sequences of conversions in one process over two or three
+paths — the same file converted twice (equal results, also after the first result was modified in place), a path
+rewritten with another score (result must be the new content's; also when the new file has the same size and the
+old modification time), .xml / .mxl interleaved; every step is compared with the conversion of the same content from a
+path used exactly once (itself judged by the oracle).  Class-level tables of the parser must be unchanged afterwards.
+"""
 import ast
 import inspect
 from fractions import Fraction as F
@@ -346,25 +355,35 @@ def encode_score(sc):
 
 
 # ----------------------------------------------------------------------------- the real code
+POOL = 3      # paths per extension that the streams rewrite over and over
+
+
 class Impl:
-    """runs musicxml_file_to_sequence_proto on rendered files in a private temporary directory."""
+    """runs musicxml_file_to_sequence_proto on rendered files in a private temporary directory.  Scores go to a small
+    pool of paths s0..s2.xml / s0..s2.mxl which are rewritten in place (never a fresh name per score) unless a unique
+    path is asked for; `prev` is the score that was at the path of the latest `run` before it was rewritten."""
 
     def __init__(self):
         base = '/dev/shm' if os.path.isdir('/dev/shm') and os.access('/dev/shm', os.W_OK) else None
         self.dir = tempfile.mkdtemp(prefix='c05_', dir=base)
         self.n = 0
+        self.last = {}
+        self.prev = None
 
     def close(self):
         shutil.rmtree(self.dir, ignore_errors=True)
 
-    def write(self, xml, mxl=False, container=None, inner='score.xml'):
+    def path(self, mxl=False, slot=None, unique=False):
         self.n += 1
+        name = 'u%d' % self.n if unique else 's%d' % ((self.n % POOL) if slot is None else slot)
+        return os.path.join(self.dir, name + ('.mxl' if mxl else '.xml'))
+
+    def write(self, xml, mxl=False, container=None, inner='score.xml', slot=None, unique=False, path=None):
+        p = path or self.path(mxl, slot, unique)
         if not mxl:
-            p = os.path.join(self.dir, 's%d.xml' % self.n)
             with open(p, 'w', encoding='utf-8') as f:
                 f.write(xml)
             return p
-        p = os.path.join(self.dir, 's%d.mxl' % self.n)
         if container is None:
             container = ('<?xml version="1.0" encoding="UTF-8"?><container><rootfiles>'
                          '<rootfile full-path="%s" media-type="application/vnd.recordare.musicxml+xml"/>'
@@ -376,8 +395,8 @@ class Impl:
                 z.writestr(inner, xml)
         return p
 
-    def convert(self, path):
-        """(sequence or None, error name or None)"""
+    def convert(self, path, raw=False):
+        """(sequence or None, error name or None); pool paths stay on disk (they are rewritten), others are removed"""
         from note_seq import musicxml_reader as mr, musicxml_parser as mp
         try:
             return mr.musicxml_file_to_sequence_proto(path), None
@@ -387,13 +406,18 @@ class Impl:
         except Exception as e:  # pylint: disable=broad-except
             return None, 'raw:' + type(e).__name__
         finally:
-            try:
-                os.unlink(path)
-            except OSError:
-                pass
+            if not os.path.basename(path).startswith(('s', 'h')):      # pool / history paths stay: they are rewritten
+                try:
+                    os.unlink(path)
+                except OSError:
+                    pass
 
-    def run(self, sc, mxl=False):
-        return self.convert(self.write(render_xml(sc), mxl=mxl))
+    def run(self, sc, mxl=False, slot=None, unique=False):
+        p = self.write(render_xml(sc), mxl=mxl, slot=slot, unique=unique)
+        self.prev = self.last.get(p)
+        if not unique:
+            self.last[p] = sc
+        return self.convert(p)
 
 
 def result_line(ns, err):
@@ -1264,8 +1288,125 @@ def judge_case(chk, im, sc, stream, mxl=False, report=True):
             if finding in seen:
                 continue
             seen.add(finding)
-            chk.fail(what, {'score': sc, 'mxl': mxl, 'stream': stream}, finding=finding)
+            rep = {'score': sc, 'mxl': mxl, 'stream': stream}
+            if finding is None and im.prev is not None:
+                rep['prev_on_path'] = im.prev      # the score this path held before it was rewritten with `sc`
+            chk.fail(what, rep, finding=finding)
     return line, bad
+
+
+# ----------------------------------------------------------------------------- conversions in one process over few paths
+def same_size_variant(sc):
+    """a score whose rendering has exactly the size of `sc`'s but other content: the first pitched note moves to the
+    next step letter (None when there is no pitched note)"""
+    v = copy.deepcopy(sc)
+    for p in v['parts']:
+        for m in p['measures']:
+            for e in m:
+                if e[0] == 'N' and e[1]['k'] == 'p' and e[1]['step'] in 'CDEFGAB' and len(e[1]['step']) == 1:
+                    e[1]['step'] = 'CDEFGAB'[('CDEFGAB'.index(e[1]['step']) + 1) % 7]
+                    return v
+    return None
+
+
+def clean_score(rng, im, tries=20):
+    """a valid score on which the oracle holds without any finding, with its result line from a path used once"""
+    for _ in range(tries):
+        sc, _ = gen_valid(rng, {'nparts': rng.choice([1, 1, 2]), 'nmeas': rng.randint(1, 3)})
+        ns, err = im.run(sc, unique=True)
+        try:
+            if oracle(sc, ns, err) == []:
+                return sc
+        except Unjudged:
+            pass
+    return None
+
+
+def gen_file_history(rng, im):
+    """{'kind': 'file-history', 'scores': [sc…], 'steps': [[action, slot, mxl, score index]…]}; actions: 'w' write score
+    to the path and convert, 'c' convert the path again as it is, 'm' convert, modify the returned NoteSequence in
+    place, convert again, 'z' rewrite with a same-size variant keeping the modification time, then convert"""
+    scores = []
+    for _ in range(rng.choice([2, 3])):
+        sc = clean_score(rng, im)
+        if sc is None:
+            return None
+        scores.append(sc)
+        v = same_size_variant(sc)
+        if v is not None and len(render_xml(v)) == len(render_xml(sc)):
+            scores.append(v)
+    slots = [(0, False), (1, False), (0, True)] if rng.random() < 0.6 else [(0, False), (0, True)]
+    steps, held = [], {}
+    for _ in range(rng.choice([6, 8, 10])):
+        sl = rng.choice(slots)
+        k = rng.random()
+        if sl not in held or k < 0.45:
+            j = rng.randrange(len(scores))
+            if sl in held and rng.random() < 0.7:
+                j = rng.choice([i for i in range(len(scores)) if i != held[sl]] or [j])
+            if sl in held and not sl[1] and rng.random() < 0.5:
+                twins = [i for i in range(len(scores)) if i != held[sl] and len(render_xml(scores[i])) == len(render_xml(scores[held[sl]]))]
+                if twins:
+                    j = rng.choice(twins)
+            act = 'w'
+            # same size, same mtime: only .xml (a zip's size depends on its content)
+            if sl in held and not sl[1] and j != held[sl] and len(render_xml(scores[j])) == len(render_xml(scores[held[sl]])):
+                act = 'z'
+            held[sl] = j
+        else:
+            j, act = held[sl], rng.choice(['c', 'c', 'm'])
+        steps.append([act, sl[0], sl[1], j])
+    return {'kind': 'file-history', 'scores': scores, 'steps': steps}
+
+
+def run_file_history(im, h, count=None):
+    """-> (failing step number, text) or None.  Reference per score: the conversion of the same rendering from a path
+    that is used exactly once."""
+    count = count or (lambda key: None)
+    ref = {}
+
+    def reference(j):
+        if j not in ref:
+            ref[j] = result_line(*im.run(h['scores'][j], unique=True))
+        return ref[j]
+    for k, (act, slot, mxl, j) in enumerate(h['steps']):
+        p = os.path.join(im.dir, 'h%d' % slot + ('.mxl' if mxl else '.xml'))
+        what = {'w': 'path rewritten with another score', 'c': 'same file converted again',
+                'm': 'same file converted again after the first result was modified in place',
+                'z': 'path rewritten with a score of the same size, modification time kept'}[act]
+        if act in 'wz':
+            st = os.stat(p) if act == 'z' and os.path.exists(p) else None
+            im.write(render_xml(h['scores'][j]), mxl=mxl, path=p)
+            if st is not None:
+                os.utime(p, ns=(st.st_atime_ns, st.st_mtime_ns))
+        if act == 'm':
+            ns, err = im.convert(p)
+            if ns is not None:
+                del ns.notes[:]
+                del ns.key_signatures[:]
+                if ns.tempos:
+                    ns.tempos[0].qpm = 1.0
+                ns.total_time = 12345.0
+        got = result_line(*im.convert(p))
+        count('%s (%s)' % (what, '.mxl' if mxl else '.xml'))
+        if got != reference(j):
+            return k + 1, ('step %d of %d conversions in one process (%s, %s): the result is not the one the file\'s content '
+                           'gives when converted from a path used once: got %s, want %s' % (
+                               k + 1, len(h['steps']), what, os.path.basename(p), got[:160], reference(j)[:160]))
+    for f in os.listdir(im.dir):
+        if f.startswith('h'):
+            os.unlink(os.path.join(im.dir, f))
+    return None
+
+
+def class_tables(mp):
+    return {'NoteDuration.TYPE_RATIO_MAP': repr(sorted(mp.NoteDuration.TYPE_RATIO_MAP.items())),
+            'ChordSymbol.CHORD_KIND_ABBREVIATIONS': repr(sorted(mp.ChordSymbol.CHORD_KIND_ABBREVIATIONS.items())),
+            'module constants': repr((mp.DEFAULT_MIDI_PROGRAM, mp.DEFAULT_MIDI_CHANNEL, mp.MUSICXML_MIME_TYPE)),
+            'MusicXMLParserState()': repr(sorted(vars(mp.MusicXMLParserState()).items(), key=lambda kv: kv[0])),
+            'class attributes': repr(sorted((c, k) for c in ('MusicXMLDocument', 'Part', 'Measure', 'Note', 'ScorePart', 'MusicXMLParserState')
+                                            for k, v in vars(getattr(mp, c)).items()
+                                            if isinstance(v, (list, dict, set)) and not k.startswith('__')))}
 
 
 def run(chk):
@@ -1281,8 +1422,11 @@ def run(chk):
                 'whole-beat constraint, meters n/4 n/8 n/2 with changes, fifths -7..7 x mode major/minor/absent, tempo marks at '
                 'measure starts and inside measures in the first part / all parts, transposing parts, two voices joined by '
                 'backup, forward, chords, rests, dots, tuplets, harmony from the kind table with degrees/bass/offset) rendered to '
-                '.xml and .mxl; off-class and malformed scores for the correspondence only; non-trivial = distinct score whose '
-                'model result is a sequence or a documented exception')
+                '.xml and .mxl, always onto a pool of three paths per extension that are rewritten in place; off-class and '
+                'malformed scores for the correspondence only; file-history: 6-10 conversions in one process over 2-3 paths '
+                '(rewrite with another score, rewrite with a same-size score keeping the mtime, convert again, convert again after '
+                'modifying the returned sequence in place), each compared with the conversion of the same content from a path '
+                'used once; non-trivial = distinct score whose model result is a sequence or a documented exception')
     im = Impl()
     try:
         _run(chk, im, mp, corpus_cases(PID))
@@ -1292,6 +1436,7 @@ def run(chk):
 
 def _run(chk, im, mp, corpus):
     reqs, impl, meta = [], [], []
+    tables0 = class_tables(mp)
 
     def add(stream, req, res, hist, key=None):
         reqs.append(req)
@@ -1300,6 +1445,8 @@ def _run(chk, im, mp, corpus):
 
     # ---- corpus (former defects, the open finding) : correspondence + oracle
     for name, obj in corpus:
+        if 'score' not in obj:
+            continue
         sc = obj['score']
         line, bad = judge_case(chk, im, sc, 'corpus:' + name, mxl=obj.get('mxl', False))
         add('corpus', 'conv ' + encode_score(sc), line, 'corpus:' + name)
@@ -1422,6 +1569,27 @@ def _run(chk, im, mp, corpus):
     if err != 'MusicXMLParseError':
         chk.fail('a corrupt .mxl archive raised %s instead of MusicXMLConversionError' % err, {'container': 'bad-zip'})
 
+    # ---- conversions in one process over two or three paths (oracle only: the model is a function of the content)
+    rng = chk.subrng('file-history')
+    hists = [obj for _, obj in corpus if obj.get('kind') == 'file-history']
+    for _ in range(chk.n(60, 800)):
+        h = gen_file_history(rng, im)
+        if h is not None:
+            hists.append(h)
+    nfail = 0
+    for h in hists:
+        r = run_file_history(im, h, lambda key: chk.count('file-history', None, False, key)) if nfail < 3 else None
+        chk.stream('file-history')['nontrivial'].add(repr(h['steps']) + render_xml(h['scores'][0])[:3000])
+        if r:
+            nfail += 1
+            chk.fail(r[1], {'kind': 'file-history', 'scores': h['scores'], 'steps': h['steps'][:r[0]]})
+    # class-level tables of the parser: what they were when the run started
+    now = class_tables(mp)
+    for k in tables0:
+        chk.count('class-tables', k, True, 'unchanged' if tables0[k] == now[k] else 'CHANGED: ' + k)
+        if tables0[k] != now[k]:
+            chk.broken.append('state: %s of musicxml_parser is not what it was before the conversions of this run' % k)
+
     # ---- the model on the same requests
     model = chk.driver(EXE, reqs)
     for req, a, b, (stream, hist, key) in zip(reqs, impl, model, meta):
@@ -1440,13 +1608,27 @@ def _run(chk, im, mp, corpus):
 
 def replay(chk, obj):
     """re-run one replay input against the real code with the oracle; 1 = the property fails on it."""
+    if obj.get('kind') == 'file-history':
+        im = Impl()
+        try:
+            print('replay C05: %d conversions in one process over paths %s' % (
+                len(obj['steps']), sorted({'h%d%s' % (s_[1], '.mxl' if s_[2] else '.xml') for s_ in obj['steps']})))
+            r = run_file_history(im, obj, lambda key: print('  ', key))
+            print('PROPERTY FAILS: ' + r[1] if r else 'property holds on this input')
+            return 1 if r else 0
+        finally:
+            im.close()
     if 'score' not in obj:
         print('replay C05: not a score replay (%s)' % list(obj))
         return 0
     sc = obj['score']
     im = Impl()
     try:
-        ns, err = im.run(sc, mxl=obj.get('mxl', False))
+        if obj.get('prev_on_path') is not None:
+            # the path held another score before: convert that one first, then rewrite the SAME path with this score
+            im.run(obj['prev_on_path'], mxl=obj.get('mxl', False), slot=0)
+            print('replay C05: the path first held another score (converted), then was rewritten with this one')
+        ns, err = im.run(sc, mxl=obj.get('mxl', False), slot=0)
         print('replay C05: %d part(s), as %s -> %s' % (len(sc['parts']), '.mxl' if obj.get('mxl') else '.xml',
                                                         ('exception ' + err) if err else '%d notes' % len(ns.notes)))
         if obj.get('expect_error'):
